@@ -20,29 +20,34 @@ def ops32 : Handler := fun st toks =>
   | ["insert", d, v] => do
     let (i, sl) ← b? d; let v ← parseU32 v
     let r := Bitmap.insert sl.m v; let q := Spec.insert sl.s v
-    pure (st.setB i ⟨r.1, q.1⟩, specMark (showBool r.2) (showBool q.2))
+    pure (st.setB i ⟨r.1, q.1⟩, specMark (showBool r.2) (showBool q.2) ++ safeMark "insert" (decide (Bitmap.Safe_insert sl.m v)))
   | ["remove", d, v] => do
     let (i, sl) ← b? d; let v ← parseU32 v
     let r := Bitmap.remove sl.m v; let q := Spec.remove sl.s v
-    pure (st.setB i ⟨r.1, q.1⟩, specMark (showBool r.2) (showBool q.2))
+    pure (st.setB i ⟨r.1, q.1⟩, specMark (showBool r.2) (showBool q.2) ++ safeMark "remove" (decide (Bitmap.Safe_remove sl.m v)))
   | ["insert_range", d, lo, hi] => do
     let (i, sl) ← b? d; let lo ← parseBound lo; let hi ← parseBound hi
     let r := Bitmap.insertRange sl.m lo hi; let q := Spec.insertRange u32Max sl.s lo hi
-    pure (st.setB i ⟨r.1, q.1⟩, specMark (toString r.2) (toString q.2))
+    pure (st.setB i ⟨r.1, q.1⟩, specMark (toString r.2) (toString q.2)
+      ++ safeMark "insert_range" (decide (Bitmap.Safe_insertRange sl.m lo hi))
+      ++ safeMark "insert_range.count" (decide (U64 r.2)))
   | ["remove_range", d, lo, hi] => do
     let (i, sl) ← b? d; let lo ← parseBound lo; let hi ← parseBound hi
     let r := Bitmap.removeRange sl.m lo hi; let q := Spec.removeRange u32Max sl.s lo hi
-    pure (st.setB i ⟨r.1, q.1⟩, specMark (toString r.2) (toString q.2))
+    pure (st.setB i ⟨r.1, q.1⟩, specMark (toString r.2) (toString q.2)
+      ++ safeMark "remove_range" (sl.m.length > safeMaxContainers || decide (Bitmap.Safe_removeRange sl.m lo hi))
+      ++ safeMark "remove_range.count" (decide (U64 r.2)))
   | ["push", d, v] => do
     let (i, sl) ← b? d; let v ← parseU32 v
     let r := Bitmap.push sl.m v; let q := Spec.push sl.s v
-    pure (st.setB i ⟨r.1, q.1⟩, specMark (showBool r.2) (showBool q.2))
+    pure (st.setB i ⟨r.1, q.1⟩, specMark (showBool r.2) (showBool q.2) ++ safeMark "push" (decide (Bitmap.Safe_push sl.m v)))
   | "append" :: d :: vs => do
     let (i, sl) ← b? d; let vs ← parseNats vs
     let q := Spec.append sl.s vs
+    let safe := safeMark "append" (vs.length > safeMaxValues || decide (Bitmap.Safe_append st.dbg sl.m vs))
     match Bitmap.append st.dbg sl.m vs with
-    | some r => pure (st.setB i ⟨r.1, q.1⟩, specMark (showAppend r.2) (showAppend q.2))
-    | none => pure (st, specMark "panic" (showAppend q.2))
+    | some r => pure (st.setB i ⟨r.1, q.1⟩, specMark (showAppend r.2) (showAppend q.2) ++ safe)
+    | none => pure (st, specMark "panic" (showAppend q.2) ++ safe)
   | "from_sorted" :: d :: vs => do
     let i ← parseSlot 'b' d; let vs ← parseNats vs
     let q := Spec.append [] vs
@@ -52,7 +57,8 @@ def ops32 : Handler := fun st toks =>
     | none => pure (st, "panic")
   | "extend" :: d :: vs => do
     let (i, sl) ← b? d; let vs ← parseNats vs
-    pure (st.setB i ⟨Bitmap.extendMirror sl.m vs, Spec.extend sl.s vs⟩, "ok")
+    pure (st.setB i ⟨Bitmap.extendMirror sl.m vs, Spec.extend sl.s vs⟩,
+      "ok" ++ safeMark "extend" (vs.length > safeMaxValues || decide (Bitmap.Safe_extend sl.m vs)))
   | "from_iter" :: d :: vs => do
     let i ← parseSlot 'b' d; let vs ← parseNats vs
     pure (st.setB i ⟨Bitmap.fromIterMirror vs, Spec.extend [] vs⟩, "ok")
@@ -61,22 +67,27 @@ def ops32 : Handler := fun st toks =>
     pure (st.setB i ⟨[], []⟩, "ok")
   | ["remove_smallest", d, n] => do
     let (i, sl) ← b? d; let n ← parseU64 n
-    pure (st.setB i ⟨Bitmap.removeSmallestMirror sl.m n, Spec.removeSmallest sl.s n⟩, "ok")
+    pure (st.setB i ⟨Bitmap.removeSmallestMirror sl.m n, Spec.removeSmallest sl.s n⟩,
+      "ok" ++ safeMark "remove_smallest" (decide (Bitmap.Safe_removeSmallest sl.m n)))
   | ["remove_biggest", d, n] => do
     let (i, sl) ← b? d; let n ← parseU64 n
-    pure (st.setB i ⟨Bitmap.removeBiggestMirror sl.m n, Spec.removeBiggest sl.s n⟩, "ok")
+    pure (st.setB i ⟨Bitmap.removeBiggestMirror sl.m n, Spec.removeBiggest sl.s n⟩,
+      "ok" ++ safeMark "remove_biggest" (decide (Bitmap.Safe_removeBiggest sl.m n)))
   | ["contains", d, v] => do
     let (_, sl) ← b? d; let v ← parseU32 v
-    pure (st, specMark (showBool (Bitmap.contains sl.m v)) (showBool (Spec.contains sl.s v)))
+    pure (st, specMark (showBool (Bitmap.contains sl.m v)) (showBool (Spec.contains sl.s v))
+      ++ safeMark "contains" (decide (Bitmap.Safe_contains sl.m v)))
   | ["contains_range", d, lo, hi] => do
     let (_, sl) ← b? d; let lo ← parseBound lo; let hi ← parseBound hi
-    pure (st, specMark (showBool (Bitmap.containsRange sl.m lo hi)) (showBool (Spec.containsRange u32Max sl.s lo hi)))
+    pure (st, specMark (showBool (Bitmap.containsRange sl.m lo hi)) (showBool (Spec.containsRange u32Max sl.s lo hi))
+      ++ safeMark "contains_range" (decide (Bitmap.Safe_containsRange sl.m lo hi)))
   | ["range_cardinality", d, lo, hi] => do
     let (_, sl) ← b? d; let lo ← parseBound lo; let hi ← parseBound hi
-    pure (st, specMark (toString (Bitmap.rangeCardinality sl.m lo hi)) (toString (Spec.rangeCardinality u32Max sl.s lo hi)))
+    pure (st, specMark (toString (Bitmap.rangeCardinality sl.m lo hi)) (toString (Spec.rangeCardinality u32Max sl.s lo hi))
+      ++ safeMark "range_cardinality" (decide (Bitmap.Safe_rangeCardinality sl.m lo hi)))
   | ["len", d] => do
     let (_, sl) ← b? d
-    pure (st, specMark (toString (Bitmap.len sl.m)) (toString sl.s.length))
+    pure (st, specMark (toString (Bitmap.len sl.m)) (toString sl.s.length) ++ safeMark "len" (decide (Bitmap.Safe_len sl.m)))
   | ["is_empty", d] => do
     let (_, sl) ← b? d
     pure (st, specMark (showBool (Bitmap.isEmpty sl.m)) (showBool sl.s.isEmpty))
@@ -85,16 +96,16 @@ def ops32 : Handler := fun st toks =>
     pure (st, specMark (showBool (Bitmap.isFull sl.m)) (showBool (Spec.isFull u32Max sl.s)))
   | ["min", d] => do
     let (_, sl) ← b? d
-    pure (st, specMark (showOpt (Bitmap.min? sl.m)) (showOpt (Spec.min? sl.s)))
+    pure (st, specMark (showOpt (Bitmap.min? sl.m)) (showOpt (Spec.min? sl.s)) ++ safeMark "min" (decide (Bitmap.Safe_min sl.m)))
   | ["max", d] => do
     let (_, sl) ← b? d
-    pure (st, specMark (showOpt (Bitmap.max? sl.m)) (showOpt (Spec.max? sl.s)))
+    pure (st, specMark (showOpt (Bitmap.max? sl.m)) (showOpt (Spec.max? sl.s)) ++ safeMark "max" (decide (Bitmap.Safe_max sl.m)))
   | ["rank", d, v] => do
     let (_, sl) ← b? d; let v ← parseU32 v
-    pure (st, specMark (toString (Bitmap.rankMirror sl.m v)) (toString (Spec.rank sl.s v)))
+    pure (st, specMark (toString (Bitmap.rankMirror sl.m v)) (toString (Spec.rank sl.s v)) ++ safeMark "rank" (decide (Bitmap.Safe_rank sl.m v)))
   | ["select", d, n] => do
     let (_, sl) ← b? d; let n ← parseU64 n
-    pure (st, specMark (showOpt (Bitmap.select sl.m n)) (showOpt (Spec.select sl.s n)))
+    pure (st, specMark (showOpt (Bitmap.select sl.m n)) (showOpt (Spec.select sl.s n)) ++ safeMark "select" (decide (Bitmap.Safe_select sl.m n)))
   | ["eq", a, b] => do
     let (_, x) ← b? a; let (_, y) ← b? b
     pure (st, specMark (showBool (Bitmap.eqMirror x.m y.m)) (showBool (x.s == y.s)))
